@@ -2,7 +2,7 @@ META = dict(
     level='model_checking',
     rule=('BFS over ownership histories, replayed on fresh objects, in lock-step with a reference set model: owners o0..o2 (optional holders), functions f0..f2, '
           'alphabet {register-assign onto absent/empty/live owner, register-construct, unregister, destroy owner, move-assign, move-construct, destroy_sandbox, '
-          'create_sandbox} (32 operations), depth 4 (5 thorough) with state deduplication on (model state, core key list, backend slot assignment); seeds with the '
+          'create_sandbox} (32 operations), depth 4 (8 thorough) with state deduplication on (model state, core key list, backend slot assignment); seeds with the '
           'backend entry-point table holding 0, n-2, n-1, n registrations (n = 64 for noop/dylib, 4 for mbox). After every step: is_unregistered of every owner, '
           'entry points non-null and pairwise distinct, backend table == set of live owners, an actual guest call through every live entry point, and for every '
           'function a registration probe on a replayed copy. states = distinct states, transitions = executed operations.'),
